@@ -1,5 +1,5 @@
 (* C04 proofs, part 6: the extracted entry points.  The observation [run_model] prints parses back to
-   what was printed - for every observation whatsoever - so [run_spec l (run_model l)] is the structured
+   what was printed - for every observation whatsoever - so [run_spec_seq l (run_model_seq l)] is the structured
    checker of ProofsMeets on the model's structured output. *)
 From V Require Import C04.Glue C04.ProofsMap C04.ProofsStep C04.ProofsMeets C04.ProofsHeap C04.ProofsProps.
 From Coq Require Import String Lia.
@@ -250,8 +250,25 @@ Proof.
 Qed.
 
 (* MODEL MEETS SPEC, for the two extracted entry points as ./check composes them *)
-Theorem model_meets_spec_wire_lemma (l : list tok) (c : case) : parse_case l = Some c -> run_spec l (run_model l) = [].
+Theorem model_meets_spec_wire_lemma (l : list tok) (c : case) : parse_case l = Some c -> run_spec_seq l (run_model_seq l) = [].
 Proof.
-  intros H. rewrite (run_model_never_faults l c H). unfold run_spec. rewrite H, parse_print_obs.
+  intros H. rewrite (run_model_never_faults l c H). unfold run_spec_seq. rewrite H, parse_print_obs.
   apply run1_meets_spec.
+Qed.
+
+(* ------------------------------------------------------------------ the dispatching entry points *)
+Lemma cut_bars_plain l tr : plain "||" l -> cut_bars (l ++ tag "||" :: tr) = (l, tr).
+Proof.
+  induction 1 as [|t l Ht Hl IH]; [reflexivity|]. cbn [app cut_bars]. rewrite Ht, IH. reflexivity.
+Qed.
+Lemma cut_bars_none l : plain "||" l -> cut_bars l = (l, []).
+Proof. induction 1 as [|t l Ht Hl IH]; [reflexivity|]. cbn [cut_bars]. rewrite Ht, IH. reflexivity. Qed.
+
+(* what ./check composes: the runner hands "<case> || <trace>" (the trace is empty for these cases) to [run_model] and [run_spec] *)
+Theorem model_meets_spec_entry_lemma (l tr : list tok) (c : case) :
+  parse_case l = Some c -> is_srace l = false -> plain "||" l ->
+  run_spec (l ++ tag "||" :: tr) (run_model (l ++ tag "||" :: tr)) = [] /\ run_spec l (run_model l) = [].
+Proof.
+  intros H Hs Hp. unfold run_spec, run_model. rewrite (cut_bars_plain l tr Hp), (cut_bars_none l Hp), Hs.
+  split; apply (model_meets_spec_wire_lemma l c H).
 Qed.
